@@ -35,7 +35,8 @@ LEVEL_TEXT = (
     'for every path of the two readers and every input-side table entry.')
 LEVEL_NOTE = ('Trusted: issubclass semantics; leaf handlers other than the '
               'pass-throughs return native types (C08/C10).')
-TECHNIQUE = 'foreign-value taint + dominating-guard analysis; handler-table reading (ast)'
+TECHNIQUE = ('foreign-value taint + dominating-guard analysis with '
+             'propositional entailment; handler-table reading (ast)')
 
 READERS = [('spyne.protocol.xml:XmlDocument', 'from_element'),
            ('spyne.protocol.dictdoc.hier:HierDictDocument', '_doc_to_object')]
